@@ -370,7 +370,7 @@ def extract(unit, ex):
             frag = R.r10_vec_idioms(frag, st)
         if cfg.get("option_unfold"):
             # `.map(` is ambiguous with Iterator::map at the token level: unfolded only where the unit says the receiver is an Option
-            which = ("map_or", "map_or_else") + (("map",) if cfg.get("option_unfold_map") else ()) + (("unwrap_or_else",) if cfg.get("option_unfold_unwrap_or_else") else ()) + (("and_then",) if cfg.get("option_unfold_and_then") else ())
+            which = ("map_or", "map_or_else") + (("map",) if cfg.get("option_unfold_map") else ()) + (("unwrap_or_else",) if cfg.get("option_unfold_unwrap_or_else") else ()) + (("and_then",) if cfg.get("option_unfold_and_then") else ()) + (("filter",) if cfg.get("option_unfold_filter") else ())
             frag = R.r10_option_unfold(frag, st, which)
         if cfg.get("drop_nested_fns"):
             frag = R.drop_nested_fns(frag, st)
